@@ -106,6 +106,21 @@ PROPS = {
         "correspondence": "real SLG vs real recursive solver through Compat.compatible",
         "explanation": "cross-validation of the two solvers by a certified comparator",
     },
+    "C05": {
+        "level": "translation_validation",
+        "rule": "150 generated programs: 1-2 #[auto] traits (optionally a #[coinductive] trait with cyclic impls), 3-6 structs with 0-2 fields forming rings and chains "
+                "(recursive and mutually recursive), explicit positive (plain and conditional) and negative auto-trait impls; 7 closed goals each (atoms, conjunctions, not); "
+                "both solvers, each goal on a fresh instance AND the whole sequence on one shared instance; every answer judged by the certified evaluator on autoProgram(data) "
+                "built in Lean from the ADT/impl data read off chalk's lowered Program; non-trivial = every judged answer",
+        "technique": "certified checker (Stage-A evaluator, coinductive stratum proved sound in both directions) + Lean theorem that the gfp of the data-built clauses is the property's sentence (auto_sentence)",
+        "claim": "auto_sentence / no_default_if_provided / default_clause_of_adt: the meaning used as oracle is exactly 'explicit impl applies, or constructor without explicit/negative "
+                 "impl and all constituents hold, cycles satisfied'. decide_co_yes/no: every accepted Unique/No-solution is certified. Reuse of a solver instance is part of every run.",
+        "note": "Trusted: Lean kernel, horn.rs data extraction (fields, impls, provided pairs), Stage-A theorems. Fragment: ADTs, u32/bool leaves; no tuples/refs/closures/phantom data. "
+                "Known findings found by this check (open): F14 SLG reuse after a coinductive cycle gives 'No possible solution' for a true goal; F15 SLG panic 'Negative subgoal had delayed_subgoals'. "
+                "The recursive solver's cache framework has its own model (C10).",
+        "correspondence": "real Solver::solve (SLG, recursive; fresh and shared instances) vs Sem.evalGoal on autoProgram(data)",
+        "explanation": "translation validation of solver answers by a certified checker",
+    },
     "C13": {
         "level": "proof",
         "rule": "100 generated Horn-fragment programs (no growing-type impls: searches stay within the size limits) x 5 goals (2 closed, 3 with unknowns) x 6 (thorough 24) "
